@@ -10,13 +10,15 @@ GInit == /\ Init
          /\ polls \in {mods, {}} \cup {{m} : m \in mods}
          /\ writes \in {polls, {}, mods, mods \ polls}
 GSpec == GInit /\ [][FALSE]_vars
-MCSpec == GInit /\ [][Next]_vars          \* design check over the same bounded configuration space
+(* the design check needs only the failure kinds that differ for the automaton *)
+BasicFail == \A m \in mods : fail[m] \in {"none", "early", "init", "create"}
+MCSpec == GInit /\ BasicFail /\ [][Next]_vars          \* design check over the same bounded configuration space
 (* three modules: the configuration space is thinned (at most MaxEdges attachments in total, one module declared first *)
 (* polls alone or all do) so that the exhaustive run finishes; the two-module space is complete                         *)
 CONSTANT MaxEdges
 RECURSIVE SumCard(_, _)
 SumCard(f, S) == IF S = {} THEN 0 ELSE LET x == CHOOSE y \in S : TRUE IN Cardinality(f[x]) + SumCard(f, S \ {x})
-MC3Init == /\ GInit
+MC3Init == /\ GInit /\ BasicFail
            /\ SumCard(att, mods) <= MaxEdges
 MC3Spec == MC3Init /\ [][Next]_vars
 Emit1 == PrintT(<<"BEH", ToJson([mods |-> mods, att |-> att, wrong |-> wrong, fail |-> fail, polls |-> polls, writes |-> writes])>>)
